@@ -1,44 +1,52 @@
 import Nv.Proofs.C16Term
 import Nv.Proofs.C16Flush
 /-!
-C16 — settling, and the manager's count over many sessions. Proved configuration.
+C16 — settling, and the manager's count over many sessions. Proved configuration, exit callback returns.
 -/
 namespace Nv.C16
 
 /-! ### settling reaches a quiescent state -/
 
-theorem quiescent_proved {c : Cfg} (hc : Proved c) (s : Sess) :
+theorem quiescent_proved {c : Cfg} (hc : Proved c) {s : Sess} (h : SInv s) :
     quiescent c s ↔ (sendStepP s = none ∧ recvStepP s = none) := by
-  unfold quiescent; rw [sendStep_proved hc, recvStep_proved hc]
+  unfold quiescent; rw [sendStep_proved hc s h.exit_ret, recvStep_proved hc s h.exit_ret h.not_crashed]
 
-theorem settleN_quiescent {c : Cfg} (hc : Proved c) : ∀ (n : Nat) (s : Sess), measure s ≤ n → quiescent c (settleN c n s)
-  | 0, s, h => by
+theorem settleN_quiescent {c : Cfg} (hc : Proved c) : ∀ (n : Nat) (s : Sess), SInv s → measure s ≤ n →
+    quiescent c (settleN c n s) ∧ SInv (settleN c n s)
+  | 0, s, hS, h => by
     simp only [settleN]
-    rw [quiescent_proved hc]
+    refine ⟨?_, hS⟩
+    rw [quiescent_proved hc hS]
     have h0 : measure s = 0 := by omega
     unfold measure at h0
     have hs : s.sendPc = .done := by
-      cases hp : s.sendPc <;> first | rfl | (rw [hp] at h0; simp only [SendPc.weight] at h0; omega)
+      cases hp : s.sendPc with
+      | done => rfl
+      | quitting st => rw [hp] at h0; cases st <;> simp [SendPc.weight, QStage.weight] at h0 <;> omega
+      | _ => rw [hp] at h0; simp only [SendPc.weight] at h0; omega
     have hr : s.recvPc = .done := by
-      cases hp : s.recvPc <;> first | rfl | (rw [hp] at h0; simp only [RecvPc.weight] at h0; omega)
+      cases hp : s.recvPc with
+      | done => rfl
+      | quitting p st => rw [hp] at h0; cases st <;> simp [RecvPc.weight, QStage.weight] at h0 <;> omega
+      | _ => rw [hp] at h0; simp only [RecvPc.weight] at h0; omega
     simp [sendStepP, recvStepP, hs, hr]
-  | n + 1, s, h => by
+  | n + 1, s, hS, h => by
     simp only [settleN]
     cases h1 : sendStep c s with
     | some s' =>
       simp only
-      apply settleN_quiescent hc n s'
-      rw [sendStep_proved hc] at h1
-      have := measure_sendStepP h1; omega
+      rw [sendStep_proved hc s hS.exit_ret] at h1
+      have := measure_sendStepP h1
+      exact settleN_quiescent hc n s' (sinv_sendStepP hS h1) (by omega)
     | none =>
       simp only
       cases h2 : recvStep c s with
       | some s' =>
         simp only
-        apply settleN_quiescent hc n s'
-        rw [recvStep_proved hc] at h2
-        have := measure_recvStepP h2; omega
-      | none => exact ⟨h1, h2⟩
+        rw [recvStep_proved hc s hS.exit_ret hS.not_crashed] at h2
+        have := measure_recvStepP h2
+        exact settleN_quiescent hc n s' (sinv_recvStepP hS h2) (by omega)
+      | none => exact ⟨⟨h1, h2⟩, hS⟩
 
 theorem settleN_reach {c : Cfg} : ∀ (n : Nat) (s : Sess), (sessLTS c).Reach s → (sessLTS c).Reach (settleN c n s)
   | 0, _, h => h
@@ -73,36 +81,26 @@ theorem liveCount_set : ∀ (l : List Sess) (k : Nat) (s s' : Sess), l[k]? = som
 theorem liveCount_eq_alive : ∀ (l : List Sess), (∀ s ∈ l, SInv s) → liveCount l = (aliveNum l : Int)
   | [], _ => rfl
   | x :: xs, h => by
-    have hx := h x (by simp)
+    have hx := counters_le_one (h x (by simp))
     have ih := liveCount_eq_alive xs (fun s hs => h s (by simp [hs]))
-    obtain ⟨h1, h2, _⟩ := hx
     simp only [liveCount, aliveNum, ih]
-    cases ho : x.onceDone <;> simp [ho] at h1 <;> simp [h2, h1]
+    split <;> omega
 
-theorem decs_mono_P {c : Cfg} (hc : Proved c) {s s' : Sess} {a : Act} (hs : step c s a = some s') : s.decs ≤ s'.decs := by
-  have hq : s.decs ≤ (quitP s).decs := by unfold quitP; split <;> simp
+theorem decs_mono_P {c : Cfg} (hc : Proved c) {s s' : Sess} {a : Act} (hS : SInv s) (hs : step c s a = some s') :
+    s.decs ≤ s'.decs := by
   cases a with
   | env e =>
     simp only [step, Option.some.injEq] at hs; subst hs
     cases e <;> simp only [envStep] <;> (try split) <;> simp
   | sendStep =>
-    rw [step, sendStep_proved hc] at hs
+    rw [step, sendStep_proved hc s hS.exit_ret] at hs
     unfold sendStepP at hs
-    split at hs
-    · split at hs
-      · split at hs <;> cases hs; simp
-      · split at hs <;> (cases hs; simp)
-    · split at hs
-      · cases hs; simp
-      · split at hs <;> cases hs; simp
-    · cases hs; simpa using hq
-    · cases hs
+    repeat' split at hs
+    all_goals first | cases hs; simp | cases hs
   | recvStep =>
-    rw [step, recvStep_proved hc] at hs
+    rw [step, recvStep_proved hc s hS.exit_ret hS.not_crashed] at hs
     unfold recvStepP at hs
-    split at hs
-    · split at hs <;> cases hs; simp
-    · cases hs; simpa using hq
-    · cases hs
+    repeat' split at hs
+    all_goals first | cases hs; simp | cases hs
 
 end Nv.C16
